@@ -61,11 +61,17 @@ def fit_dataflow(chk, tag, r, d, vt, replay):
                     why.append('tree %d edge %d has no parents in tree %d' % (k + 1, e.pos, k))
                     continue
                 p, q = trees[k - 1][e.parents[0]], trees[k - 1][e.parents[1]]
+                # the parent whose conditioned pair holds the edge's L supplies the conditional CDF of L given the rest
+                # (row 0 of its U if L is its own left variable, row 1 otherwise); likewise for R and the other parent
+                if e.L not in (p.L, p.R):
+                    p, q = q, p
                 rp, rq = row_terms(p.U), row_terms(q.U)
-                if rp is None or rq is None:
+                if rp is None or rq is None or e.L not in (p.L, p.R) or e.R not in (q.L, q.R):
                     ok_feed = False
+                    why.append('tree %d edge (%s,%s|%s): its conditioned variables are not those of its parents' %
+                               (k + 1, e.L, e.R, sorted(e.D)))
                     continue
-                cands = [(a, b) for a in rp for b in rq]
+                cands = [(rp[0] if p.L == e.L else rp[1], rq[0] if q.L == e.R else rq[1])]
             nt = e.name.t if isinstance(e.name, Sym) else None
             tt = e.theta.t if isinstance(e.theta, Sym) else None
             ut = row_terms(e.U)
@@ -105,7 +111,8 @@ def fit_dataflow(chk, tag, r, d, vt, replay):
                clause='edge.U = [h(in1|in2), h(in2|in1)] of that copula, with exact 0 -> EPSILON and exact 1 -> 1 - EPSILON'))
     chk.add(Ob('C17.%s.next_tree_fed_by_parents_U' % tag, r.pc, ir.const(ok_feed), backends=('syntactic',),
                function=TREE + 'Edge.get_child_edge', replay=replay,
-               clause='the two inputs of an edge of tree k >= 2 are one row of each parent\'s U%s' %
+               clause='the two inputs of an edge (L,R|D) of tree k >= 2 are the conditional CDF of L from the parent holding L and the '
+                      'conditional CDF of R from the parent holding R (rows of the parents\' U)%s' %
                       (' [%s]' % why[0] if not ok_feed and why else '')))
     chk.add(Ob('C17.%s.U_strictly_inside_unit_interval' % tag, r.pc, ir.and_(*inside) if inside else ir.TRUE, function=fq,
                free_ufs_ok=True, replay=replay, clause='every pseudo-observation is strictly inside (0,1)'))
@@ -195,6 +202,28 @@ def _native_replay_uncached(kind, vt, d, seeds=range(8)):
                 elif not np.isclose(outs[1], tot, rtol=1e-9, equal_nan=False):
                     bad.append('seed %d: get_likelihood = %r, the sum of log pair densities at the h-propagated arguments = %r' %
                                (seed, outs[1], tot))
+                from copulas.utils import EPSILON
+                for k, t in enumerate(v.trees):
+                    for j, e in enumerate(t.edges):
+                        if k == 0:
+                            continue
+                        pi, qi = S[k][j]['parents']
+                        p, q = v.trees[k - 1].edges[pi], v.trees[k - 1].edges[qi]
+                        if e.L not in (p.L, p.R):
+                            p, q = q, p
+                        a = np.asarray(p.U[0] if p.L == e.L else p.U[1], dtype=float)
+                        b = np.asarray(q.U[0] if q.L == e.R else q.U[1], dtype=float)
+                        c = Bivariate(copula_type=e.name)
+                        c.theta = e.theta
+                        want = np.array([c.partial_derivative(np.column_stack([a, b])), c.partial_derivative(np.column_stack([b, a]))])
+                        want[want == 0] = EPSILON
+                        want[want == 1] = 1 - EPSILON
+                        if not np.allclose(np.asarray(e.U, dtype=float), want, rtol=1e-9, atol=1e-12):
+                            bad.append('seed %d: the pseudo-observations of the tree-%d edge (%d,%d|%s) are not the h-functions of the '
+                                       'conditional CDFs of %d and %d taken from its parents (max difference %.3g)' %
+                                       (seed, k + 1, e.L, e.R, sorted(e.D), e.L, e.R,
+                                        float(np.max(np.abs(np.asarray(e.U, dtype=float) - want)))))
+                            break
                 for t in v.trees:
                     for e in t.edges:
                         U = np.asarray(e.U, dtype=float)
